@@ -28,9 +28,9 @@ occupancy within the cap, any number of concurrent requests and releases and eve
 their atomic steps: the cap holds after every step and a refused request changes nothing. -/
 theorem C17_main_atomic (P : Proto) (limit pre : Nat) (progs : List (Nat × List Op)) (σ : List Nat)
     (hfin : P.final ≠ .plain) (hcas : P.final = .cas → P.early = true) (hfu : P.fused = false)
-    (hpre : capOk P.zeroUnl limit pre = true) :
+    (hpre : capOk P.zeroUnl limit pre = true) (hsw : P.staleWrite = false := by rfl) :
     holds P.zeroUnl limit pre (run P limit (init pre progs) σ).trace (run P limit (init pre progs) σ).occ = true :=
-  holds_of_base (invA_run hfin hcas hfu σ _ (invA_init P limit pre progs hpre)).base
+  holds_of_base (invA_run hfin hcas hfu hsw σ _ (invA_init P limit pre progs hpre)).base
 
 /-- Server-wide connection cap: `SessionManager.CreateConnection` as repaired (early check under
 `RLock`, `GetConnectionID()` in between, re-check and insert under `Lock`). -/
@@ -85,10 +85,10 @@ holder, waiter, newcomer on a fresh mutex) — such a change breaks the skeleton
 N >= 3 racer schedules of the harness. -/
 theorem C17_main_mutex (P : Proto) (limit pre I : Nat) (progs : List (List Op)) (σ : List Nat)
     (hm : P.mutex = true) (he : P.early = true) (hf : P.final = .plain) (hfu : P.fused = false)
-    (hpre : capOk P.zeroUnl limit pre = true) :
+    (hpre : capOk P.zeroUnl limit pre = true) (hsw : P.staleWrite = false := by rfl) :
     holds P.zeroUnl limit pre (run P limit (init pre (progs.map (fun p => (I, p)))) σ).trace
       (run P limit (init pre (progs.map (fun p => (I, p)))) σ).occ = true :=
-  holds_of_base (invB_run hm he hf hfu σ _ (invB_init P limit pre I progs hpre)).base
+  holds_of_base (invB_run hm he hf hfu hsw σ _ (invB_init P limit pre I progs hpre)).base
 
 /-- Quota on active connection codes: `CreateConnectionCode` (`codeQuotaMu`; `GetList`, n × `GetByID`,
 check, `GetByCode`, `Set`, `Set`, `AppendToList`). -/
@@ -104,7 +104,7 @@ read and the record read.) -/
 theorem C17_code_dead (d limit pre I : Nat) (progs : List (List Op)) (σ : List Nat) (hpre : capOk false limit pre = true) :
     holds false limit pre (run protoCode limit (initDead d pre (progs.map (fun p => (I, p)))) σ).trace
       (run protoCode limit (initDead d pre (progs.map (fun p => (I, p)))) σ).occ = true :=
-  holds_of_base (invB_run rfl rfl rfl rfl σ _ (invB_initDead protoCode limit d pre I progs hpre)).base
+  holds_of_base (invB_run rfl rfl rfl rfl rfl σ _ (invB_initDead protoCode limit d pre I progs hpre)).base
 
 /-- Quota on active mappings: `ActivateConnectionCode` (`mappingQuotaMu`; `GetClientPortMappings` +
 count + check, `CreatePortMapping`). -/
@@ -112,6 +112,50 @@ theorem C17_mapq (limit pre I : Nat) (progs : List (List Op)) (σ : List Nat) (h
     holds false limit pre (run protoMapq limit (init pre (progs.map (fun p => (I, p)))) σ).trace
       (run protoMapq limit (init pre (progs.map (fun p => (I, p)))) σ).occ = true :=
   C17_main_mutex protoMapq limit pre I progs σ rfl rfl rfl rfl hpre
+
+/-! ## Read-modify-write requests on the record of an admitted item (usage update, revocation) -/
+
+/-- **Usage update × revocation × activation at the quota** — PARTIAL.  `RecordMappingUsage` and
+`RevokeMapping` read-modify-write the whole record of a mapping; both take the record lock BEFORE the read
+(pins `skel_RecordMappingUsage`, `skel_RevokeMapping`), so the copy written back is current and a usage
+update cannot resurrect a revoked mapping.  `C17_main_mutex` covers programs containing `Op.touch` /
+`Op.mrevoke` for every interleaving (the steps are in `stepThread`), but with ALL requests serialised on ONE
+mutex `I`; the driver runs them with the record lock as a SECOND mutex (their threads carry another `inst`).
+Full statement still to be proved: `∀ progs with quota requests on mutex I and record requests on mutex J ≠ I,
+∀ σ, holds …` (needs the exclusion invariant per mutex).  What is proved about two mutexes is the pair of
+examples below and the witness for the read-before-lock variant. -/
+theorem C17_rmw_partial (limit pre I : Nat) (progs : List (List Op)) (σ : List Nat) (hpre : capOk false limit pre = true) :
+    holds false limit pre (run protoMapq limit (init pre (progs.map (fun p => (I, p)))) σ).trace
+      (run protoMapq limit (init pre (progs.map (fun p => (I, p)))) σ).occ = true :=
+  C17_main_mutex protoMapq limit pre I progs σ rfl rfl rfl rfl hpre
+
+/-- **Read before the record lock (seeded regression `recordusage-read-outside-mapping-lock`).** Quota 2,
+two active mappings.  The usage update of mapping 0 reads it (active); the revocation of mapping 0
+completes; an activation counts 1 and creates a mapping; the usage update writes its stale copy back:
+three active mappings. -/
+theorem C17_rmw_stale_witness :
+    holds false 2 2 (run { protoMapq with staleWrite := true } 2
+        (init 2 [(7, [.touch]), (7, [.mrevoke]), (0, [.acquire])]) [0, 1, 1, 2, 2, 2, 0]).trace
+      (run { protoMapq with staleWrite := true } 2
+        (init 2 [(7, [.touch]), (7, [.mrevoke]), (0, [.acquire])]) [0, 1, 1, 2, 2, 2, 0]).occ = false := by decide
+
+/-- The same schedule on the code as it is (two mutexes: quota mutex 0, record lock 7): the revocation
+waits for the usage update, the activation is refused at the quota, then the revocation goes through. -/
+example :
+    (run protoMapq 2 (init 2 [(7, [.touch]), (7, [.mrevoke]), (0, [.acquire])]) [0, 1, 1, 2, 2, 2, 0, 1, 1]).trace
+      = [.stp 0 2, .blk 1 2, .blk 1 2, .stp 2 2, .ref 2 false 2, .stp 0 2, .stp 1 2, .rel 1 0 1] := by decide
+
+/-- Revocation first, then an activation takes the free slot; the usage update changes nothing. -/
+example :
+    (run protoMapq 2 (init 2 [(7, [.touch]), (7, [.mrevoke]), (0, [.acquire])]) [1, 1, 2, 2, 2, 0, 0]).trace
+      = [.stp 1 2, .rel 1 0 1, .stp 2 1, .stp 2 1, .adm 2 2 none 2, .stp 0 2, .stp 0 2] := by decide
+
+/-- Both requests take the record lock first, then read, then write. -/
+theorem skel_RecordMappingUsage : Gen.Skel.L17_RecordMappingUsage =
+    ["repos.LockPortMapping", "portMappingService.GetPortMapping", "portMappingService.UpdatePortMapping"] := by decide
+theorem skel_RevokeMapping : Gen.Skel.L17_RevokeMapping =
+    ["repos.LockPortMapping", "portMappingService.GetPortMapping", "mapping.Revoke", "portMappingService.UpdatePortMapping"] := by
+  decide
 
 /-! ## Evict-oldest with the evicting thread parked inside the victim's `Close()` -/
 
